@@ -63,6 +63,30 @@ CLAIMED.update({
              "are, by vm_compute); the while-loop equivalence is established per generated loop by the spec oracle.",
         technique="Coq proof (induction on fuel) + spec oracle (sequential loop) + differential correspondence",
     ),
+    "C05": dict(
+        category="proof",
+        text="Theorems (every depth, both runners): executing a nested graph as a node IS translating the addressed inputs to the inner "
+             "names (C06), running the inner graph, and translating its (selected) outputs back; errors surface unchanged, a pause gets the "
+             "wrapper's name prefixed; the executor does not read the outer state, so a nested graph is a function node and the engine "
+             "theorems (C01 fix-point, C02 schedules, ...) apply to graphs containing nested graphs. The inlining equivalence itself is "
+             "decided on generated nestings: flat vs nested input spec and values for convex groups, depth 1-3, inner/outer/double bindings, "
+             "inner selections, renamed wrapper inputs.",
+        design_ref="DESIGN.md section 5 C05",
+        note="partial: 'run (nest g S) = run g' is established per generated nesting by the oracle plus the model correspondence, not as a "
+             "Coq theorem; one concrete nesting is proved equal by vm_compute (C05_nonvacuous).",
+        technique="Coq proof (characterisation of the GraphNode executor, reuse of C06/C01) + metamorphic oracle flat vs nested",
+    ),
+    "C10": dict(
+        category="proof",
+        text="Theorems: zip enumerates position-wise combinations and rejects unequal lengths; product enumerates the cartesian product in "
+             "row-major order of map_over, with the length law and emptiness; result i of a map is the single run on combination i; a mapping "
+             "node's outputs are lists with one entry per combination (None where the item failed or did not produce it) and raise mode "
+             "surfaces the first failing item; with a bounded worker pool every completion order yields the input order (MathComp proof: "
+             "sorted permutation of iota). Tied to /repo by runner.map and mapping-node runs against single runs, under adversarial completion orders.",
+        design_ref="DESIGN.md section 5 C10",
+        note="clone settings and the asyncio queue itself are runtime behaviour; the pool is modelled by its completion order.",
+        technique="Coq proof (list induction; ssreflect sorted_eq for the pool) + differential oracle against single runs",
+    ),
     "C08": dict(
         category="proof",
         text="Theorems for every node list, binding, entry-point and selection configuration: required / optional / entry-point "
